@@ -415,6 +415,30 @@ Definition rules_agreeb (R : rules) (r r' : recval) : bool := forallb (fun lc =>
 Definition rec_keepsb (x : recordR) : bool :=
   rules_agreeb (rules_for RS (r_kind x)) (r_val x) (r_val (parsed_rec T x)).
 
+(* "the record read back holds the same protected values": the fields the projection [p_batch] reads
+   from a batch header / an entry / a batch control *)
+Definition hdr_str_fields : list string := ["StandardEntryClassCode"; "ODFIIdentification"].
+Definition hdr_int_fields : list string := ["ServiceClassCode"; "BatchNumber"].
+Definition entry_str_fields (k : kind) : list string :=
+  match k with KADV => ["RDFIIdentification"; "CheckDigit"] | _ => ["RDFIIdentification"; "CheckDigit"; "TraceNumber"] end.
+Definition entry_int_fields : list string := ["TransactionCode"; "Amount"].
+Definition ctl_str_fields : list string := ["ODFIIdentification"].
+Definition ctl_int_fields : list string :=
+  ["ServiceClassCode"; "EntryAddendaCount"; "EntryHash"; "TotalDebitEntryDollarAmount"; "TotalCreditEntryDollarAmount"; "BatchNumber"].
+
+Definition fields_keptb (ss is_ : list string) (x : recordR) : bool :=
+  forallb (fun f => bytes_eqb (gets (r_val (parsed_rec T x)) f) (gets (r_val x) f)) ss
+  && forallb (fun f => (geti (r_val (parsed_rec T x)) f =? geti (r_val x) f)%Z) is_.
+
+Definition batch_proj_keepsb (k : kind) (b : batchR) : bool :=
+  fields_keptb hdr_str_fields hdr_int_fields (bt_hdr b)
+  && forallb (fun e => fields_keptb (entry_str_fields k) entry_int_fields (en_rec e)) (bt_entries b)
+  && fields_keptb ctl_str_fields ctl_int_fields (bt_ctl b).
+
+Definition proj_keepsb (f : fileR) : bool :=
+  forallb (fun b => batch_proj_keepsb (std_kind (bt_hdr b)) b) (fl_batches f)
+  && forallb (batch_proj_keepsb KIAT) (fl_iat f).
+
 (* the closed batches of the file read back pass the batch validation *)
 Definition batches_okb (f : fileR) : bool :=
   forallb (fun b => batch_okb AT (std_kind (bt_hdr b)) b) (fl_batches f) && forallb (batch_okb AT KIAT) (fl_iat f).
